@@ -31,6 +31,15 @@ def full_classes(F, short, need=("update",)):
     return out
 
 
+def alg_classes(F, short, need=("update",)):
+    """Full instantiations used by the algebraic engine: DIM >= 2 (for DIM == 1 the N x DIM storage type
+    coincides with VectorXd; DIM == 1 is covered by the parametricity rule C13-R4)."""
+    out = [c for c in full_classes(F, short, need) if (F.record(c).get("targs") or [0])[0] != 1]
+    if not out:
+        raise Broken("no DIM>=2 instantiation of " + short)
+    return out
+
+
 def strip_copy(e):
     """Peel copy-constructions, casts and default-arg wrappers."""
     while isinstance(e, dict):
